@@ -12,12 +12,13 @@
 // the deciding transaction and the bookkeeping invariants on every transaction.
 //
 // Oracle (reference model = set of done (chain, id)):
-//   accepted (tx ok ∧ a cross-state hash is emitted)  ⇒  authentication valid ∧ (chain,id) ∉ done
-//   valid ∧ (chain,id) ∉ done                          ⇒  accepted                  (canonical case must pass)
-//   accepted        ⇒ exactly one new doneTx key, namely doneTx/LE64(chain)/id
-//   not accepted    ⇒ the deciding tx leaves the whole dump unchanged (no doneTx, no request, no vote)
-//   every state: number of doneTx keys == |model|, number of request records == |model|
-//   same id on the other source chain is independent (follows from the model being keyed by (chain,id)).
+//
+//	accepted (tx ok ∧ a cross-state hash is emitted)  ⇒  authentication valid ∧ (chain,id) ∉ done
+//	valid ∧ (chain,id) ∉ done                          ⇒  accepted                  (canonical case must pass)
+//	accepted        ⇒ exactly one new doneTx key, namely doneTx/LE64(chain)/id
+//	not accepted    ⇒ the deciding tx leaves the whole dump unchanged (no doneTx, no request, no vote)
+//	every state: number of doneTx keys == |model|, number of request records == |model|
+//	same id on the other source chain is independent (follows from the model being keyed by (chain,id)).
 package main
 
 import (
